@@ -27,6 +27,7 @@ import (
 func init() {
 	register("c20.tess", opC20Tess)
 	register("c20.cell", opC20Cell)
+	register("c20.sweep", opC20Sweep)
 	register("c20.snap", opC20Snap)
 	register("c20.sub", opC20Sub)
 }
@@ -113,6 +114,11 @@ func c20Proj(name string, scale int) s2.Projection {
 func c20Thr(tol float64) float64 { return tol*(1+1e-9) + 1e-14 }
 
 func c20Tess(rec *c20Rec, projName string, scale int, tol float64, a, b s2.Point, cls, desc string) {
+	c20TessN(rec, projName, scale, tol, a, b, cls, desc, 4)
+}
+
+// c20TessN: per samples per output edge (sphere -> plane) / per output edge on the planar input edge (plane -> sphere)
+func c20TessN(rec *c20Rec, projName string, scale int, tol float64, a, b s2.Point, cls, desc string, per int) {
 	proj := c20Proj(projName, scale)
 	tess := s2.NewEdgeTessellator(proj, s1.Angle(tol))
 	eff := math.Max(tol, 1e-13) // documented minimum tolerance
@@ -123,7 +129,8 @@ func c20Tess(rec *c20Rec, projName string, scale int, tol float64, a, b s2.Point
 		maxd, maxdx := 0.0, 0.0
 		var worst string
 		for i := 0; i+1 < len(verts); i++ {
-			for _, t := range []float64{0, 0.25, 0.5, 0.75, 1} {
+			for k := 0; k <= per; k++ {
+				t := float64(k) / float64(per)
 				q := proj.Unproject(proj.Interpolate(t, verts[i], verts[i+1]))
 				d := float64(s2.DistanceFromSegment(q, a, b))
 				if d > maxd {
@@ -150,6 +157,15 @@ func c20Tess(rec *c20Rec, projName string, scale int, tol float64, a, b s2.Point
 		ns := 512
 		if len(chain) > 1500 {
 			ns = 64
+		}
+		if per > 4 {
+			ns = per * len(chain)
+			if ns < 512 {
+				ns = 512
+			}
+			if ns > 16384 {
+				ns = 16384
+			}
 		}
 		maxd := 0.0
 		var worst string
@@ -216,6 +232,48 @@ func opC20Tess(raw json.RawMessage, o *Out) {
 	c20Tess(rec, c.Proj, c.Scale, math.Pow(10, -float64(c.TolExp)), emb.Unit(c.A), emb.Unit(c.B), fmt.Sprint(c.Cls),
 		fmt.Sprintf("lattice edge %v -> %v %v", c.A, c.B, c.Cls))
 	o.sample = map[string]any{"op": "c20.tess", "proj": c.Proj, "scale": c20Scales[c.Scale], "tolexp": c.TolExp, "a": c.A, "b": c.B, "cls": c.Cls}
+}
+
+// opC20Sweep: an edge across the equator (integer degrees from TLC) at one of 24 log-spaced tolerances,
+// with dense sampling of the achieved deviation (64 samples per output edge).
+func opC20Sweep(raw json.RawMessage, o *Out) {
+	var c struct {
+		Cid        int
+		Only       *int
+		Proj       string
+		Scale      int
+		S, L, N, D int
+		K          int
+		Anti       bool
+	}
+	if err := json.Unmarshal(raw, &c); err != nil {
+		panic(err)
+	}
+	rec := c20NewRec(c.Cid, c.Only, o)
+	defer rec.flush()
+	lng := func(x int) float64 {
+		x %= 360
+		if x > 180 {
+			x -= 360
+		}
+		return float64(x)
+	}
+	a := s2.PointFromLatLng(s2.LatLngFromDegrees(-float64(c.S), lng(c.L)))
+	b := s2.PointFromLatLng(s2.LatLngFromDegrees(float64(c.N), lng(c.L+c.D)))
+	length := a.Distance(b).Degrees()
+	if length < 20 || length > 90 {
+		o.Count("sweep_edges_outside_20_90_degrees_skipped")
+		return
+	}
+	o.nontrivial = true
+	tol := 1e-4 * math.Pow(10, 3*float64(c.K)/23)
+	cls := "[equator]"
+	if c.Anti {
+		cls = "[equator antimeridian]"
+		o.Count("sweep_edges_across_antimeridian")
+	}
+	c20TessN(rec, c.Proj, c.Scale, tol, a, b, cls, fmt.Sprintf("edge %d:%v -> %d:%v (%.1f degrees) %s", -c.S, lng(c.L), c.N, lng(c.L+c.D), length, cls), 64)
+	o.sample = map[string]any{"op": "c20.sweep", "proj": c.Proj, "from": []float64{-float64(c.S), lng(c.L)}, "to": []float64{float64(c.N), lng(c.L + c.D)}, "tolerance": tol}
 }
 
 func c20GridPoint(face, g, i, j int) s2.Point {
